@@ -38,7 +38,7 @@ PID = "C27"
 LEVEL = "fault_enumeration"
 RULE = (
     "enumerated: (a) every crash point of FileSystemBytecodeCache.dump_bytecode (before/after temp-file creation, after k "
-    "bytes written for every k in thorough and for every k of two configurations plus 24 offsets of the others in quick, "
+    "bytes written for every k in thorough and for every k of one configuration plus the header bytes and 24 offsets of the others in quick, "
     "after close, before/after os.replace) as a simulated kill (directory snapshot at the fault) and as an exception that "
     "unwinds, with and without an older entry in place, plus OSError at the same points; (b) every truncation offset of a "
     "stored entry, zero-length, directory in place, stale source, entry of another name, five foreign magic headers with a "
@@ -909,7 +909,7 @@ def crash_cases(tier):
     for sp in CRASH_SPECS:
         for src in CRASH_SRCS:
             total, bounds = probe_write(sp, src)
-            dense = tier == "thorough" or n in (0, 6)
+            dense = tier == "thorough" or n == 0
             n += 1
             for prior in ("none", "old"):
                 for p in STRUCT_POINTS:
@@ -934,7 +934,7 @@ def damage_cases(tier):
             if src is T_TRANS:
                 sp = spec(sp["loader"], extensions=["i18n"], **sp["opts"])
             total, bounds = probe_write(sp, src)
-            dense = tier == "thorough" or n in (0, 6, 12)
+            dense = tier == "thorough" or n in (0, 6)
             n += 1
             for k in _offsets(total, bounds, dense) + [total + 7]:
                 yield {"kind": "damage", "env": sp, "src": src, "damage": ["truncate", k]}
@@ -943,8 +943,8 @@ def damage_cases(tier):
                 yield {"kind": "damage", "env": sp, "src": src, "damage": d}
 
 
-GET_B = ["ok", "raise", "none", "empty", ["trunc", 0], ["trunc", 1], ["trunc", 14], ["trunc", 15], ["trunc", 16], ["trunc", 40],
-         ["trunc", 64], ["trunc", 65], ["trunc", 300]]
+GET_B = ["ok", "raise", "none", ["trunc", 15], ["trunc", 40], ["trunc", 300], "empty", ["trunc", 1], ["trunc", 64], ["trunc", 65],
+         ["trunc", 0], ["trunc", 14], ["trunc", 16]]
 SET_B = ["ok", "raise", "drop", "store_raise", ["trunc", 0], ["trunc", 20], ["trunc", 65], ["trunc", 200]]
 
 
@@ -963,7 +963,7 @@ def memc_cases(tier):
     hs = [h for h in histories(2 if tier == "quick" else 3) if all(op[0] != "C" for op in h)]
     for h in hs:
         for ignore in (True, False):
-            for g in itertools.product(GET_B[:8], repeat=2):
+            for g in itertools.product(GET_B[: 6 if tier == "quick" else 9], repeat=2):
                 for s in SET_B[:5]:
                     yield {"kind": "memc", "envs": pairs[len(h) % 2], "tpl": tpl, "ignore": ignore, "timeout": None,
                            "ops": h, "gets": list(g), "sets": [s, "ok"]}
